@@ -288,6 +288,9 @@ def r4_send(L, repo, tier):
             for (s_, lab) in n_.succ:
                 if lab == "exc" or s_.id in seen or s_.id in send_ids:
                     continue
+                if n_.kind == "cond" and n_ is not gn and _decided_by_datagram(repo, ci, n_.ast.test, held) is not None \
+                        and _decided_by_datagram(repo, ci, n_.ast.test, held) != bool(lab):
+                    continue        # a test of the datagram itself (type, length) that every datagram gen_msg() produces decides the other way
                 if n_.kind == "cond" and n_ is not gn:
                     t_ = n_.ast.test
                     if isinstance(t_, ast.Compare) and len(t_.ops) == 1 and isinstance(t_.left, ast.Name) and t_.left.id in held \
@@ -431,6 +434,35 @@ def r1_witness_fold(L, repo, spec):
     L.floor("C13.R1", "validate() witnesses folded", n, 150)
 
 
+def _decided_by_datagram(repo, ci, test, held):
+    """truth value of a condition that reads nothing but the encoded datagram (names in `held`, through isinstance / type /
+    len / comparisons with constants) when it is the same for every datagram the witness messages of R6 encode to
+    (all header versions, modulations, NOPE); None otherwise"""
+    from consteval import Ev
+    names = {n.id for n in ast.walk(test) if isinstance(n, ast.Name)}
+    if not names & held or not names <= (held | {"isinstance", "type", "len", "bytes", "bytearray", "memoryview", "int"}):
+        return None
+    if any(isinstance(n, (ast.Attribute, ast.Subscript)) for n in ast.walk(test)):
+        return None
+    dgs = repo.__dict__.get("_c13_datagrams")
+    if dgs is None:
+        try:
+            from report import Ledger
+            r6_accepted_encodes(Ledger("C13", "quick", repo.root, quiet=True), repo, None)
+        except Exception:
+            pass
+        dgs = repo.__dict__.get("_c13_datagrams")
+    if not dgs:
+        return None
+    vals = set()
+    for d in dgs:
+        try:
+            vals.add(bool(Ev(repo, ci.mod, env={h: d for h in held}, self_cls=ci).ev(test)))
+        except Exception:
+            return None
+    return vals.pop() if len(vals) == 1 else None
+
+
 def r6_accepted_encodes(L, repo, spec):
     """R6 ('encoding is refused for EXACTLY the messages that do not validate' - the encode side): for one valid message
     per scenario, and for variants in the fields validate() does not look at for that kind of message (modulation / TSC
@@ -472,7 +504,9 @@ def r6_accepted_encodes(L, repo, spec):
             raise AnalysisError("validate() does not fold on a witness: %s" % ex)
         c2, g = repo.find_method(ci, "gen_msg")
         try:
-            e.call_func(g, c2.mod, e._bindargs(g, ["<self>"], {}), self_cls=ci, writeback=False)
+            dg_ = e.call_func(g, c2.mod, e._bindargs(g, ["<self>"], {}), self_cls=ci, writeback=False)
+            if isinstance(dg_, (bytes, bytearray)):
+                repo.__dict__.setdefault("_c13_datagrams", []).append(bytearray(dg_))
             got = "a datagram"
         except Raised as ex:
             got = "raises %s" % ex.cls
